@@ -131,6 +131,12 @@ class C04(PairCheck):
             traces.append(tcpcl_timers.run_adaptive(seed * 1000 + i, mru, init, nbytes))
             metas.append({'source': 'adaptive', 'peer_mru': mru, 'seg_init': init, 'bytes': nbytes})
         self.extra_coverage['adaptive_sizing_runs'] = 24 if tier != 'thorough' else 300
+        # the order of messages on the wire must also hold when the peer is slow to negotiate (longer than the
+        # keepalive interval or the idle time): nothing but the contact header precedes SESS_INIT
+        (str_, sme) = tcpcl_timers.slow_negotiation_executions(tier, seed)
+        traces += str_
+        metas += sme
+        self.extra_coverage['slow_negotiation_runs'] = len(str_)
         return traces, metas
 
 
